@@ -1,5 +1,6 @@
 import FitModel.F64
 import FitModel.ScaleOffset
+import FitModel.ScaleOffsetProfile
 import FitModel.TimeAngle
 import FitModel.Bits
 import FitModel.Accum
@@ -114,11 +115,12 @@ def roundTrip (route : String) (bt : Nat) (t : Num) (raws : List Nat) (s o : Nat
   | "csv", [r] =>
     match applyValue (Fit.ScaleOffset.mkScalar t r) s o with
     | .float64 x =>
-      -- text layer (strconv shortest formatting and parsing: exact, assumed): a finite value is written with a '.'
-      if !(isFinite x) then .error "err:parse"
-      else match csvParseScaled x bt s o with
-        | some v => .ok (toAny v)
-        | none => .ok .nil
+      -- the cell is read through the scaled path iff the text written for `x` contains a '.' (`csvHasDot`, tied by `socd`);
+      -- strconv's parsing of the shortest text gives back `x` (assumed)
+      match csvCell x bt s o with
+      | none => .error "err:parse"
+      | some (some v) => .ok (toAny v)
+      | some none => .ok .nil
     | v => match t with
       -- unit pair: integer text, read back by strconv.ParseInt/ParseUint
       | .int _ => .ok (toAny v)
@@ -261,12 +263,6 @@ def hSoDev : Handler := fun r =>
         else ";".intercalate parts
     | _, _, _ => "bad-op"
   | _ => "bad-op"
-
-def lookupTyped (mesg field : String) : Option Fit.PA.Typed :=
-  Fit.Gen.PA.typed.find? fun t => t.mesg == mesg && t.field == field
-
-def intTyOfCode : Nat → IntTy
-  | 0 => .i8 | 1 => .u8 | 2 => .i16 | 3 => .u16 | 4 => .i32 | 5 => .u32 | 6 => .i64 | _ => .u64
 
 def soTyped (mode : Mode) (args : List String) : String :=
   match args with
